@@ -12,7 +12,10 @@
 // are all read, op "fetchdrain", token drain:<close>:<read>:[messages]) is
 // judged by a predicate on its tags (recends, want); part D (framing: a foreign
 // correlation id, a short / oversized frame or a cut, then two more operations
-// on the same Conn).  The OCaml driver
+// on the same Conn); part E (nego: "nrun" lines, the Conn is not primed and
+// negotiates its versions from scripted ApiVersions answers); part F (reads:
+// Batch.Read / ReadMessage, Conn.Read / ReadMessage with short buffers; ops
+// fetchread, connread, connreadmsg carry a 4th field, the read actions).  The OCaml driver
 // evaluates the extracted Coq model (Model/ConnOps.v conn_run) on the part
 // before the first '|'.
 package main
@@ -79,13 +82,18 @@ var apiKeyOf = map[string]int16{
 	"leavegroup": 13, "syncgroup": 14, "listgroups": 16, "saslhandshake": 17, "apiversions": 18,
 	"createtopics": 19, "deletetopics": 20, "saslauthenticate": 36,
 	"fetchdrain": 1, // a fetch whose messages are all read before the batch is closed (part C)
+	// fetches read through Batch.Read / Batch.ReadMessage, Conn.Read, Conn.ReadMessage (part F)
+	"fetchread": 1, "connread": 1, "connreadmsg": 1,
 }
+
+// operations with a 4th field (the read actions)
+var readsOp = map[string]bool{"fetchread": true, "connread": true, "connreadmsg": true}
 
 // operations whose version is negotiated from the broker's ApiVersions table
 var negotiated = map[string]bool{
 	"produce": true, "fetch": true, "metadata": true, "joingroup": true,
 	"createtopics": true, "deletetopics": true, "saslhandshake": true,
-	"fetchdrain": true,
+	"fetchdrain": true, "fetchread": true, "connread": true, "connreadmsg": true,
 }
 
 // error-field sites of a response
@@ -272,6 +280,8 @@ func classify(err error) string {
 		return "negcount"
 	case errors.Is(err, errHang):
 		return "hang"
+	case errors.Is(err, io.ErrShortBuffer):
+		return "shortbuf"
 	}
 	msg := err.Error()
 	var n int64
@@ -291,6 +301,8 @@ func classify(err error) string {
 		return "fmt:5"
 	case strings.HasPrefix(msg, "invalid number of aborted transactions"):
 		return "fmt:6"
+	case strings.HasPrefix(msg, "no matching versions were found"):
+		return "fmt:7"
 	}
 	msg = strings.ReplaceAll(msg, " ", "_")
 	if len(msg) > 60 {
@@ -312,7 +324,7 @@ func warn(format string, a ...interface{}) {
 	}
 }
 
-func runOp(conn *kafka.Conn, f *fakeConn, o opSpec) (cls string) {
+func runOp(conn *kafka.Conn, f *fakeConn, o opSpec, acts []int64, primed bool) (cls string) {
 	defer func() {
 		if r := recover(); r != nil {
 			cls = "panic"
@@ -321,12 +333,35 @@ func runOp(conn *kafka.Conn, f *fakeConn, o opSpec) (cls string) {
 	f.hang = false
 	sent := len(f.log)
 	wasClosed := f.closed
-	s, err := kafka.VerifC11Op(conn, o.name, o.ver, o.off)
+	var s string
+	var err error
+	if readsOp[o.name] {
+		s, err = kafka.VerifC11Reads(conn, o.name, o.off, acts)
+	} else {
+		s, err = kafka.VerifC11Op(conn, o.name, o.ver, o.off)
+	}
 	// sanity: the request that went out is the one the case names (the Conn may
 	// not have called Read at all when unread bytes of an earlier response were
 	// still buffered, so look at the request buffer now)
 	f.pump()
-	if !wasClosed {
+	if !wasClosed && !primed {
+		// nrun: implicit ApiVersions requests may come first, and nothing is sent
+		// at all when the negotiation fails; look at the operation's own request
+		var own []reqHdr
+		for _, h := range f.log[sent:] {
+			if h.key != 18 || o.name == "apiversions" {
+				own = append(own, h)
+			}
+		}
+		switch {
+		case o.ver < 0 && len(own) != 0:
+			warn("%s expected to fail the negotiation sent api key %d version %d", o.name, own[0].key, own[0].ver)
+		case len(own) > 1:
+			warn("%s v%d sent %d requests", o.name, o.ver, len(own))
+		case len(own) == 1 && (own[0].key != apiKeyOf[o.name] || int(own[0].ver) != o.ver):
+			warn("%s v%d sent api key %d version %d", o.name, o.ver, own[0].key, own[0].ver)
+		}
+	} else if !wasClosed {
 		if len(f.log) != sent+1 {
 			warn("%s v%d sent %d requests", o.name, o.ver, len(f.log)-sent)
 		} else if h := f.log[sent]; h.key != apiKeyOf[o.name] || int(h.ver) != o.ver {
@@ -336,6 +371,14 @@ func runOp(conn *kafka.Conn, f *fakeConn, o opSpec) (cls string) {
 	switch {
 	case f.hang:
 		return "hang"
+	case readsOp[o.name] && (err == nil || errors.Is(err, io.ErrShortBuffer)):
+		// reads:<ok|shortbuf>:<conn offset after>:[actions]
+		if err == nil {
+			return "reads:ok:" + s
+		}
+		return "reads:shortbuf:" + s
+	case readsOp[o.name]:
+		return classify(err)
 	case o.name == "fetchdrain":
 		// drain:<class of Close's error>:<class of the read error>:[messages read]
 		cc := "ok"
@@ -360,7 +403,8 @@ const maxHungCases = 3
 
 var hungCases int
 
-func runCase(topic string, ops []opSpec, frames [][]byte, cut int) []string {
+func runCase(tc *tcase) []string {
+	topic, ops, frames, cut := tc.topic, tc.ops, tc.frames, tc.cut
 	if hungCases >= maxHungCases {
 		out := make([]string, len(ops))
 		for i := range out {
@@ -374,22 +418,24 @@ func runCase(topic string, ops []opSpec, frames [][]byte, cut int) []string {
 	done := make(chan struct{})
 	go func() {
 		defer close(done)
-		f := &fakeConn{priming: true, table: pinTable(ops), frames: frames, cut: cut}
+		f := &fakeConn{priming: !tc.noprime, table: pinTable(ops), frames: frames, cut: cut}
 		conn := kafka.NewConnWith(f, kafka.ConnConfig{Topic: topic, Partition: 0, ClientID: "c"})
-		perr := func() (err error) {
-			defer func() {
-				if r := recover(); r != nil {
-					err = fmt.Errorf("panic: %v", r)
-				}
+		if !tc.noprime {
+			perr := func() (err error) {
+				defer func() {
+					if r := recover(); r != nil {
+						err = fmt.Errorf("panic: %v", r)
+					}
+				}()
+				return kafka.VerifC11LoadVersions(conn)
 			}()
-			return kafka.VerifC11LoadVersions(conn)
-		}()
-		f.priming = false
-		if perr != nil {
-			warn("priming failed: %v", perr)
+			f.priming = false
+			if perr != nil {
+				warn("priming failed: %v", perr)
+			}
 		}
-		for _, o := range ops {
-			cls := runOp(conn, f, o)
+		for i, o := range ops {
+			cls := runOp(conn, f, o, tc.acts[i], !tc.noprime)
 			mu.Lock()
 			lastClosed = f.closed
 			res = append(res, cls+"~"+kvfmt.Bool(lastClosed))
@@ -421,17 +467,30 @@ func runCase(topic string, ops []opSpec, frames [][]byte, cut int) []string {
 // ---------------------------------------------------------------------------
 
 type tcase struct {
-	topic  string
-	ops    []opSpec
-	frames [][]byte
-	cut    int
-	tags   string
+	topic   string
+	ops     []opSpec
+	acts    map[int][]int64 // read actions of ops[i] (fetchread, connread, connreadmsg)
+	frames  [][]byte
+	cut     int
+	tags    string
+	noprime bool // "nrun": no priming, the script also answers the ApiVersions requests
 }
 
 func (c *tcase) head() string {
 	ops := make([]string, len(c.ops))
 	for i, o := range c.ops {
-		ops[i] = o.name + ":" + kvfmt.U(uint64(o.ver)) + ":" + kvfmt.I(o.off)
+		v := "-" // the generator expects the negotiation to fail
+		if o.ver >= 0 {
+			v = kvfmt.U(uint64(o.ver))
+		}
+		ops[i] = o.name + ":" + v + ":" + kvfmt.I(o.off)
+		if readsOp[o.name] {
+			a := make([]string, len(c.acts[i]))
+			for j, x := range c.acts[i] {
+				a[j] = kvfmt.I(x)
+			}
+			ops[i] += ":" + strings.Join(a, "/")
+		}
 	}
 	frs := "."
 	if len(c.frames) > 0 {
@@ -445,7 +504,11 @@ func (c *tcase) head() string {
 	if c.cut >= 0 {
 		cut = kvfmt.U(uint64(c.cut))
 	}
-	return fmt.Sprintf("run %s %s %s %s", kvfmt.Bytes([]byte(c.topic)), strings.Join(ops, ","), frs, cut)
+	kw := "run"
+	if c.noprime {
+		kw = "nrun"
+	}
+	return fmt.Sprintf("%s %s %s %s %s", kw, kvfmt.Bytes([]byte(c.topic)), strings.Join(ops, ","), frs, cut)
 }
 
 func parseI(s string) (int64, error) {
@@ -469,10 +532,10 @@ func parseBytes(s string) ([]byte, error) {
 
 func parseCase(head string) (*tcase, error) {
 	fs := strings.Fields(head)
-	if len(fs) != 5 || fs[0] != "run" {
-		return nil, fmt.Errorf("expected: run <topic> <ops> <frames> <cut>")
+	if len(fs) != 5 || (fs[0] != "run" && fs[0] != "nrun") {
+		return nil, fmt.Errorf("expected: run|nrun <topic> <ops> <frames> <cut>")
 	}
-	c := &tcase{cut: -1}
+	c := &tcase{cut: -1, noprime: fs[0] == "nrun", acts: map[int][]int64{}}
 	t, err := parseBytes(fs[1])
 	if err != nil {
 		return nil, err
@@ -480,15 +543,28 @@ func parseCase(head string) (*tcase, error) {
 	c.topic = string(t)
 	for _, o := range strings.Split(fs[2], ",") {
 		p := strings.Split(o, ":")
-		if len(p) != 3 {
-			return nil, fmt.Errorf("bad op %q", o)
-		}
 		if _, ok := apiKeyOf[p[0]]; !ok {
 			return nil, fmt.Errorf("unknown op %q", p[0])
 		}
-		v, err := strconv.ParseUint(p[1], 16, 16)
-		if err != nil {
-			return nil, err
+		if (readsOp[p[0]] && len(p) != 4) || (!readsOp[p[0]] && len(p) != 3) {
+			return nil, fmt.Errorf("bad op %q", o)
+		}
+		v := int64(-1)
+		if p[1] != "-" {
+			u, err := strconv.ParseUint(p[1], 16, 15)
+			if err != nil {
+				return nil, err
+			}
+			v = int64(u)
+		}
+		if len(p) == 4 && p[3] != "" {
+			for _, a := range strings.Split(p[3], "/") {
+				x, err := parseI(a)
+				if err != nil {
+					return nil, err
+				}
+				c.acts[len(c.ops)] = append(c.acts[len(c.ops)], x)
+			}
 		}
 		off, err := parseI(p[2])
 		if err != nil {
@@ -520,7 +596,7 @@ var caseID int
 
 func emit(c *tcase) {
 	caseID++
-	res := runCase(c.topic, c.ops, c.frames, c.cut)
+	res := runCase(c)
 	fmt.Fprintf(out, "%d %s | %s | %s\n", caseID, c.head(), strings.Join(res, " "), c.tags)
 }
 
@@ -544,7 +620,7 @@ func replay() {
 			out.Flush()
 			os.Exit(2)
 		}
-		res := strings.Join(runCase(c.topic, c.ops, c.frames, c.cut), " ")
+		res := strings.Join(runCase(c), " ")
 		if len(cols) == 3 {
 			fmt.Fprintf(out, "%s %s | %s | %s\n", id, c.head(), res, strings.TrimSpace(cols[2]))
 		} else {
@@ -1305,7 +1381,420 @@ func genAll(seed int64, tier string) {
 	}
 	nC := genDrain(seed + 7777)
 	nD := genFraming(seed + 9999)
-	fmt.Fprintf(os.Stderr, "c11: part A %d cases, part B %d cases, part C %d cases, part D %d cases\n", counts["A"], counts["B"], nC, nD)
+	nE := genNego(seed + 11111)
+	nF := genReads(seed + 22222)
+	fmt.Fprintf(os.Stderr, "c11: part A %d cases, part B %d cases, part C %d cases, part D %d cases, part E %d cases, part F %d cases\n",
+		counts["A"], counts["B"], nC, nD, nE, nF)
+}
+
+// ---------------------------------------------------------------------------
+// PART E: real version negotiation ("nrun": the Conn is not primed, the script
+// also answers the ApiVersions requests issued by loadVersions).
+// ---------------------------------------------------------------------------
+
+type negAPI struct {
+	name string
+	key  int16
+	sup  []int // versions the Conn supports, sorted
+}
+
+var negAPIs = []negAPI{
+	{"produce", 0, []int{2, 3, 7}},
+	{"fetch", 1, []int{2, 5, 10}},
+	{"metadata", 3, []int{1, 6}},
+	{"joingroup", 11, []int{1, 2}},
+	{"createtopics", 19, []int{0, 1, 2}},
+	{"deletetopics", 20, []int{0, 1}},
+	{"saslhandshake", 17, []int{0, 1}},
+}
+
+func (a negAPI) top() int { return a.sup[len(a.sup)-1] }
+
+// conn.go apiVersionMap.negotiate: the highest supported version that is not
+// above the broker's MaxVersion (0 for a key missing from the table), or -1
+func negotiateRef(max int, sup []int) int {
+	for i := len(sup) - 1; i >= 0; i-- {
+		if max >= sup[i] {
+			return sup[i]
+		}
+	}
+	return -1
+}
+
+const absent = math.MinInt32
+
+// the body of an ApiVersions v0 response: every key of 0..20 and 36 with a
+// generous MaxVersion, except the keys of over (absent = leave the key out);
+// MinVersion is random (the Conn ignores it)
+func avTable(r *rand.Rand, code int16, over map[int16]int, empty bool) []byte {
+	max := map[int16]int{
+		2: 1, 4: 0, 5: 0, 6: 0, 7: 0, 8: 2, 9: 1, 10: 0, 12: 0, 13: 0,
+		14: 0, 15: 0, 16: 1, 18: 0, 36: 0,
+	}
+	for _, a := range negAPIs {
+		max[a.key] = a.top() + r.Intn(3)
+	}
+	for k, v := range over {
+		if v == absent {
+			delete(max, k)
+		} else {
+			max[k] = v
+		}
+	}
+	keys := make([]int, 0, len(max))
+	for k := range max {
+		keys = append(keys, int(k))
+	}
+	sort.Ints(keys)
+	var e enc
+	e.i16(code)
+	if empty {
+		e.arr(0)
+		return e.b
+	}
+	e.arr(len(keys))
+	for _, k := range keys {
+		e.i16(int16(k))
+		e.i16(int16(r.Intn(9) - 1)) // min version: -1..7, may exceed the maximum
+		e.i16(int16(max[int16(k)]))
+	}
+	return e.b
+}
+
+// frames in the order the Conn consumes them, with the ids it will use
+type script struct {
+	frames [][]byte
+	id     int32
+}
+
+func (s *script) add(body []byte) {
+	s.id++
+	s.frames = append(s.frames, frame(s.id, body))
+}
+
+// the success response of an operation at a version; gives the op
+func (s *script) respond(r *rand.Rand, name string, ver int) opSpec {
+	b := genBody(r, name, ver, site{}, fetchOpt{msV2, false})
+	s.add(b.body)
+	return opSpec{name, ver, b.off}
+}
+
+func verTag(name string, ver int) string {
+	if ver < 0 {
+		return name + "v-"
+	}
+	return fmt.Sprintf("%sv%d", name, ver)
+}
+
+func maxTag(m int) string {
+	if m == absent {
+		return "absent"
+	}
+	return strconv.Itoa(m)
+}
+
+func genNego(seed int64) int {
+	r := rand.New(rand.NewSource(seed))
+	count := 0
+	put := func(s *script, ops []opSpec, cut int, tags string) {
+		emit(&tcase{topic: ownTopic, ops: ops, frames: s.frames, cut: cut, tags: tags, noprime: true})
+		count++
+	}
+	hb := opSpec{"heartbeat", 0, 0}
+
+	// (a) one table, op1 negotiated from it, heartbeat, a second negotiated
+	// operation of another API served from the cached table
+	for xi, x := range negAPIs {
+		y := negAPIs[(xi+1)%len(negAPIs)]
+		var maxes []int
+		maxes = append(maxes, x.sup...)
+		for i := 0; i+1 < len(x.sup); i++ { // one value strictly between two supported versions
+			if x.sup[i+1]-x.sup[i] > 1 {
+				maxes = append(maxes, x.sup[i]+1+r.Intn(x.sup[i+1]-x.sup[i]-1))
+				break
+			}
+		}
+		below := 0 // below every supported version
+		if x.sup[0] == 0 {
+			below = -1
+		}
+		maxes = append(maxes, 12, below, absent)
+		for _, m := range maxes {
+			var s script
+			s.add(avTable(r, 0, map[int16]int{x.key: m}, false))
+			eff := m
+			if m == absent {
+				eff = 0
+			}
+			v := negotiateRef(eff, x.sup)
+			op1 := opSpec{x.name, v, 0}
+			if v >= 0 {
+				op1 = s.respond(r, x.name, v)
+			}
+			s.add([]byte{0, 0})
+			op3 := s.respond(r, y.name, y.top())
+			put(&s, []opSpec{op1, hb, op3}, -1, fmt.Sprintf("nego,kind=table,op=%s,next=heartbeatv0,next2=%s,max=%s,code=0",
+				verTag(x.name, v), verTag(y.name, y.top()), maxTag(m)))
+		}
+	}
+
+	// (b) the ApiVersions answer carries an error code: op1 fails with it and
+	// nothing may be cached, so op2 asks again
+	for _, code := range []int16{35, 1, -1} {
+		for _, empty := range []bool{true, false} {
+			for xi, x := range negAPIs {
+				for _, z := range []negAPI{x, negAPIs[(xi+2)%len(negAPIs)]} {
+					var s script
+					// the table sent with the error names the lowest versions: a Conn
+					// that kept it would not ask again and would negotiate those
+					s.add(avTable(r, code, map[int16]int{x.key: x.sup[0], z.key: z.sup[0]}, empty))
+					op1 := opSpec{x.name, x.top(), 0}
+					s.add(avTable(r, 0, nil, false))
+					op2 := s.respond(r, z.name, z.top())
+					s.add([]byte{0, 0})
+					list, m := "table", strconv.Itoa(z.sup[0])
+					if empty {
+						list, m = "empty", "absent"
+					}
+					put(&s, []opSpec{op1, op2, hb}, -1, fmt.Sprintf("nego,kind=errcode,op=%s,next=%s,next2=heartbeatv0,max=%s,code=%d,list=%s",
+						verTag(x.name, x.top()), verTag(z.name, z.top()), m, code, list))
+				}
+			}
+		}
+	}
+	// the public Conn.ApiVersions never caches: the negotiated op2 asks again
+	for _, x := range negAPIs {
+		var s script
+		s.add(avTable(r, 0, map[int16]int{x.key: x.sup[0]}, false))
+		s.add(avTable(r, 0, nil, false))
+		op2 := s.respond(r, x.name, x.top())
+		s.add([]byte{0, 0})
+		put(&s, []opSpec{{"apiversions", 0, 0}, op2, hb}, -1, fmt.Sprintf("nego,kind=errcode,op=apiversionsv0,next=%s,next2=heartbeatv0,max=%d,code=0,list=explicit",
+			verTag(x.name, x.top()), x.sup[0]))
+	}
+
+	// (c) the first ApiVersions response is cut
+	for xi, x := range negAPIs {
+		y := negAPIs[(xi+1)%len(negAPIs)]
+		var s script
+		s.add(avTable(r, 0, nil, false))
+		n := len(s.frames[0])
+		op1 := s.respond(r, x.name, x.top())
+		s.add([]byte{0, 0})
+		op3 := s.respond(r, y.name, y.top())
+		for _, k := range []int{3, 9, n - 1} {
+			pos := "body"
+			switch {
+			case k < 8:
+				pos = "hdr"
+			case k == n-1:
+				pos = "last"
+			}
+			put(&s, []opSpec{op1, hb, op3}, k, fmt.Sprintf("nego,kind=cut,op=%s,next=heartbeatv0,next2=%s,max=%d,code=0,cutpos=%s",
+				verTag(x.name, x.top()), verTag(y.name, y.top()), x.top(), pos))
+		}
+	}
+	return count
+}
+
+// ---------------------------------------------------------------------------
+// PART F: fetches read through Batch.Read / Batch.ReadMessage / Conn.Read /
+// Conn.ReadMessage, with buffers shorter than, equal to and longer than the
+// value, and what the Conn does afterwards.
+// ---------------------------------------------------------------------------
+
+const msV0 = 3
+
+func msTag(kind int) string {
+	if kind == msV0 {
+		return "v0"
+	}
+	return msName[kind]
+}
+
+func buildMsgSet(r *rand.Rand, kind int, msgs []drainMsg) []byte {
+	var e enc
+	switch kind {
+	case msV2:
+		var recs enc
+		for i, m := range msgs {
+			var b enc
+			b.i8(0)                     // attributes
+			b.varint(int64(r.Intn(50))) // timestamp delta
+			b.varint(int64(i))          // offset delta
+			if m.key == nil {
+				b.varint(-1)
+			} else {
+				b.varint(int64(len(m.key)))
+				b.b = append(b.b, m.key...)
+			}
+			b.varint(int64(len(m.val)))
+			b.b = append(b.b, m.val...)
+			b.varint(0) // headers
+			recs.varint(int64(len(b.b)))
+			recs.b = append(recs.b, b.b...)
+		}
+		ts := r.Int63n(1 << 41)
+		e.i64(msgs[0].off)             // base offset
+		e.i32(int32(49 + len(recs.b))) // batch length: what follows this field
+		e.i32(ri32(r))                 // partition leader epoch
+		e.i8(2)                        // magic
+		e.i32(int32(r.Uint32()))       // crc (not verified by the legacy reader)
+		e.i16(0)                       // attributes
+		e.i32(int32(len(msgs) - 1))    // last offset delta
+		e.i64(ts)                      // first timestamp
+		e.i64(ts + 50)                 // max timestamp
+		e.i64(-1)                      // producer id
+		e.i16(-1)                      // producer epoch
+		e.i32(-1)                      // base sequence
+		e.i32(int32(len(msgs)))        // record count
+		e.b = append(e.b, recs.b...)
+	case msV1, msV0:
+		for _, m := range msgs {
+			sz := 4 + 1 + 1 + 4 + len(m.key) + 4 + len(m.val)
+			if kind == msV1 {
+				sz += 8
+			}
+			e.i64(m.off)     // offset
+			e.i32(int32(sz)) // message size: what follows this field
+			e.i32(int32(r.Uint32()))
+			if kind == msV1 {
+				e.i8(1) // magic
+				e.i8(0) // attributes
+				e.i64(r.Int63n(1 << 41))
+			} else {
+				e.i8(0) // magic
+				e.i8(0) // attributes
+			}
+			e.byt(m.key) // nil = null
+			e.byt(m.val)
+		}
+	}
+	return e.b
+}
+
+func fetchBodyF(r *rand.Rand, ver int, hwm int64, ms []byte) []byte {
+	var e enc
+	e.i32(ri32(r)) // throttle
+	if ver == 10 {
+		e.i16(0)
+		e.i32(ri32(r)) // session id
+	}
+	e.arr(1)
+	e.str(rstr(r))
+	e.arr(1)
+	e.i32(ri32(r)) // partition
+	e.i16(0)
+	e.i64(hwm)
+	if ver >= 5 {
+		e.i64(ri64(r)) // last stable offset
+		e.i64(ri64(r)) // log start offset
+		if r.Intn(4) == 0 {
+			e.arr(-1)
+		} else {
+			na := r.Intn(3)
+			e.arr(na)
+			for i := 0; i < na; i++ {
+				e.i64(ri64(r))
+				e.i64(ri64(r))
+			}
+		}
+	}
+	e.i32(int32(len(ms)))
+	e.b = append(e.b, ms...)
+	return e.b
+}
+
+func genReads(seed int64) int {
+	r := rand.New(rand.NewSource(seed))
+	count := 0
+	caseNo := 0
+	hb := opSpec{"heartbeat", 0, 0}
+	for _, ver := range []int{2, 5, 10} {
+		for _, kind := range []int{msV0, msV1, msV2} {
+			var off int64
+			if r.Intn(3) == 0 {
+				off = r.Int63n(1 << 40)
+			} else {
+				off = int64(r.Intn(1000))
+			}
+			lens := r.Perm(9)[:3] // distinct value lengths in 4..12
+			msgs := make([]drainMsg, 3)
+			wl := make([]string, 3)
+			for i := range msgs {
+				m := drainMsg{off: off + int64(i), val: make([]byte, 4+lens[i])}
+				r.Read(m.val)
+				if r.Intn(3) != 0 {
+					m.key = rsmall(r, 4)
+				} // else a null key
+				msgs[i] = m
+				wl[i] = kvfmt.I(m.off) + "," + kvfmt.Bytes(m.key) + "," + kvfmt.Bytes(m.val)
+			}
+			want := ",want=[" + strings.Join(wl, ";") + "]"
+			full := fetchBodyF(r, ver, off+100, buildMsgSet(r, kind, msgs))
+			lo := genBody(r, "listoffsets", 1, site{}, fetchOpt{})
+
+			for i := 0; i < 3; i++ {
+				n := int64(len(msgs[i].val))
+				caps := []struct {
+					c   int64
+					tag string
+				}{{0, "zero"}, {1, "one"}, {n - 1, "short"}, {n, "equal"}, {n + 3, "long"}}
+				for _, cp := range caps {
+					variants := 1
+					if cp.c < n {
+						variants = 2
+					}
+					for v := 1; v <= variants; v++ {
+						caseNo++
+						pre := int64(-1)
+						if caseNo%2 == 1 {
+							pre = 64
+						}
+						var acts []int64
+						for j := 0; j < i; j++ {
+							acts = append(acts, pre)
+						}
+						acts = append(acts, cp.c)
+						tc := &tcase{topic: ownTopic, cut: -1, acts: map[int][]int64{0: acts}}
+						base := fmt.Sprintf("reads,op=fetchreadv%d,msgset=%s,target=%d,cap=%s", ver, msTag(kind), i, cp.tag)
+						if v == 1 {
+							tc.ops = []opSpec{{"fetchread", ver, off}, hb, {"listoffsets", 1, 0}}
+							tc.frames = [][]byte{frame(2, full), frame(3, []byte{0, 0}), frame(4, lo.body)}
+							tc.tags = base + ",next=heartbeatv0,next2=listoffsetsv1" + want
+						} else {
+							// the documented retry: fetch again from the message that did not fit
+							retry := fetchBodyF(r, ver, off+100, buildMsgSet(r, kind, msgs[i:]))
+							tc.ops = []opSpec{{"fetchread", ver, off}, {"fetchread", ver, off + int64(i)}, hb}
+							tc.acts[1] = []int64{64}
+							tc.frames = [][]byte{frame(2, full), frame(3, retry), frame(4, []byte{0, 0})}
+							tc.tags = base + fmt.Sprintf(",next=fetchreadv%d,next2=heartbeatv0", ver) + want
+						}
+						emit(tc)
+						count++
+					}
+				}
+			}
+			// Conn.Read / Conn.ReadMessage: one fetch per call, the first message
+			n0 := int64(len(msgs[0].val))
+			for _, cr := range []struct {
+				name string
+				c    int64
+				tag  string
+			}{{"connread", n0 - 1, "short"}, {"connread", 64, "long"}, {"connreadmsg", 64, "long"}} {
+				emit(&tcase{
+					topic:  ownTopic,
+					cut:    -1,
+					ops:    []opSpec{{cr.name, ver, off}, hb, {"listoffsets", 1, 0}},
+					acts:   map[int][]int64{0: {cr.c}},
+					frames: [][]byte{frame(2, full), frame(3, []byte{0, 0}), frame(4, lo.body)},
+					tags:   fmt.Sprintf("reads,op=%sv%d,msgset=%s,target=0,cap=%s,next=heartbeatv0,next2=listoffsetsv1", cr.name, ver, msTag(kind), cr.tag) + want,
+				})
+				count++
+			}
+		}
+	}
+	return count
 }
 
 // ---------------------------------------------------------------------------
